@@ -264,7 +264,9 @@ func buildWorld(l logical, k ruleKnobs, mode config.OperationMode) (*vkit.World,
 		{ID: "cond", Type: "header", Config: config.MechanismConfig{"headers": map[string]any{"X-Cond": "yes"}}},
 		{ID: "multi1", Type: "header", Config: config.MechanismConfig{"headers": map[string]any{"X-Multi": "first"}}},
 		{ID: "multi2", Type: "header", Config: config.MechanismConfig{"headers": map[string]any{"X-Multi": "second"}}},
-		{ID: "cookies", Type: "cookie", Config: config.MechanismConfig{"cookies": map[string]any{"pipeline_user": "{{ .Subject.ID }}", "pipeline_id": "c-{{ .Request.URL.Captures.id | urlenc }}"}}},
+		{ID: "cookies", Type: "cookie", Config: config.MechanismConfig{"cookies": map[string]any{"pipeline_user": "{{ .Subject.ID }}", "pipeline_id": "c-{{ .Request.URL.Captures.id | urlenc }}",
+			// a value with characters which cannot be part of a cookie value as they are
+			"pipeline_odd": "x;y z"}}},
 	}
 
 	exec := []config.MechanismConfig{{"authenticator": "anon"}, {"authorizer": "cel"}, {"finalizer": "view"}}
@@ -384,9 +386,11 @@ func observe(w *vkit.World, entry vkit.Entry, l logical) (observation, error) {
 			o.Cookies[c.Name] = c.Value
 		}
 	default:
-		for _, part := range strings.Split(strings.Join(resp.UpHeader.Values("Cookie"), ";"), ";") {
-			if name, val, ok := strings.Cut(strings.TrimSpace(part), "="); ok && strings.HasPrefix(name, "pipeline_") {
-				o.Cookies[name] = val
+		// (read the way the upstream service would read them)
+		ur := http.Request{Header: http.Header{"Cookie": resp.UpHeader.Values("Cookie")}}
+		for _, c := range ur.Cookies() {
+			if strings.HasPrefix(c.Name, "pipeline_") {
+				o.Cookies[c.Name] = c.Value
 			}
 		}
 	}
